@@ -19,6 +19,7 @@ EXPLANATION = ("Static rules over the transaction-log writer (DiskSink), the tas
                "open/close, T4 payload materialised before yield, every task kind guarded by its restored-id set, "
                "preamble suppressed on restore, raw log lines decoded under error handling.")
 EXPLANATION += ' R7: nothing on the restore chain is memoised; a log without an experiment row is not a mismatch and gets one appended.'
+EXPLANATION += ' R5 also: an empty file is a fresh start. R8: the encoder drops nothing, _max_chunker partitions the remaining tasks (cardinality domain), an evaluation recorded with no rows is remembered (known finding).'
 
 SINKS = "coba/pipes/sinks.py"
 SOURCES = "coba/pipes/sources.py"
